@@ -32,6 +32,8 @@ func C14(c *core.Ctx) {
 	c14Pow(c)
 	c14NilElems(c)
 	c14NilPointers(c)
+	c14OptionalMembers(c)
+	c14SelfPayload(c)
 	c14DocNilElems(c)
 	c14NilMapWrites(c)
 	c14Assertions(c)
@@ -95,7 +97,11 @@ func nilSafeReceiver(p *core.Program, fd *core.FuncDecl) string {
 			}
 		}
 		// short-circuit inside one condition: `recv != nil && recv.X`
-		return shortCircuitGuard(info, fd.Decl.Body, n, recv)
+		if shortCircuitGuard(info, fd.Decl.Body, n, recv) {
+			return true
+		}
+		// `if recv == nil { recv = new(T) }` earlier in the body
+		return nilBranchAssignsStr(info, fd.Decl.Body, n, recv.Name())
 	}
 	bad := ""
 	ast.Inspect(fd.Decl.Body, func(n ast.Node) bool {
@@ -745,10 +751,64 @@ type callers struct {
 	callers map[*types.Func][]*types.Func
 	roots   map[*types.Func]bool // referenced from package initialisers (var decls / init funcs)
 	runtime map[*types.Func]bool
+	// valueRefs: functions used as values somewhere (normalisers, validators, filters)
+	valueRefs map[*types.Func]bool
+	concrete  []*types.Named
+}
+
+// forward: everything the given functions reach through static references,
+// function values and the implementations of module interface methods.
+func (cg *callers) forward(roots []*types.Func) map[*types.Func]bool {
+	p := cg.p
+	out := map[*types.Func]bool{}
+	var work []*types.Func
+	mark := func(f *types.Func) {
+		if !out[f] {
+			out[f] = true
+			work = append(work, f)
+		}
+	}
+	for _, r := range roots {
+		mark(r)
+	}
+	ifaceDone := map[*types.Func]bool{}
+	for len(work) > 0 {
+		f := work[0]
+		work = work[1:]
+		for _, g := range p.FuncRefs(f) {
+			if !core.InModule(g.Pkg()) {
+				continue
+			}
+			mark(g)
+			sig := g.Type().(*types.Signature)
+			if sig.Recv() == nil || ifaceDone[g] {
+				continue
+			}
+			it, isIface := sig.Recv().Type().Underlying().(*types.Interface)
+			if !isIface {
+				continue
+			}
+			ifaceDone[g] = true
+			for _, n := range cg.concrete {
+				for _, t := range []types.Type{n, types.NewPointer(n)} {
+					if !types.Implements(t, it) {
+						continue
+					}
+					if m, _, _ := types.LookupFieldOrMethod(t, true, g.Pkg(), g.Name()); m != nil {
+						if mf, ok := m.(*types.Func); ok && core.InModule(mf.Pkg()) && p.DeclOf(mf.Origin()) != nil {
+							mark(mf.Origin())
+						}
+					}
+					break
+				}
+			}
+		}
+	}
+	return out
 }
 
 func buildCallers(p *core.Program) *callers {
-	cg := &callers{p: p, callers: map[*types.Func][]*types.Func{}, roots: map[*types.Func]bool{}, runtime: map[*types.Func]bool{}}
+	cg := &callers{p: p, callers: map[*types.Func][]*types.Func{}, roots: map[*types.Func]bool{}, runtime: map[*types.Func]bool{}, valueRefs: map[*types.Func]bool{}}
 	all := p.AllFuncs()
 	for _, fd := range all {
 		for _, g := range p.FuncRefs(fd.Obj) {
@@ -837,6 +897,7 @@ func buildCallers(p *core.Program) *callers {
 				if f, ok := pk.TypesInfo.Uses[id].(*types.Func); ok && core.InModule(f.Pkg()) {
 					if p.DeclOf(f.Origin()) != nil {
 						mark(f.Origin())
+						cg.valueRefs[f.Origin()] = true
 					}
 				}
 				return true
@@ -860,6 +921,7 @@ func buildCallers(p *core.Program) *callers {
 			}
 		}
 	}
+	cg.concrete = concrete
 	ifaceDone := map[*types.Func]bool{}
 	for len(work) > 0 {
 		f := work[0]
